@@ -91,17 +91,20 @@ package bkl
 // ------------------------------------------------------------------------------------------------- merge.go
 
 //@ func merge(dst, src) (res, err)
+//@   consumes dst, src
 //@   ensures (= (isErr err) (mergeErr dst src))                                    [C01] [C06]
 //@   ensures (=> (not (isErr err)) (= res (mergeF dst src)))                       [C01] [C06]
 //@   decreases (+ (rank dst) (rank src)) 3
 //
 //@ func mergeMap(dst, src) (res, err)
+//@   consumes dst, src
 //@   requires ((_ is VMap) dst)
 //@   ensures (= (isErr err) (mergeErr dst src))                                    [C01]
 //@   ensures (=> (not (isErr err)) (= res (mergeF dst src)))                       [C01]
 //@   decreases (+ (rank dst) (rank src)) 2
 //
 //@ func mergeMapMap(dst, src) (res, err)
+//@   consumes dst, src
 //@   requires ((_ is VMap) dst) ((_ is VMap) src)
 //@   ensures (= (isErr err) (mergeErr dst src))                                    [C01]
 //@   ensures (=> (not (isErr err)) (= res (mergeF dst src)))                       [C01]
@@ -114,11 +117,13 @@ package bkl
 //@     invariant (forall ((j String)) (=> (not (select visited j)) (= (select (mc dst) j) (select (mc dst@pre) j))))
 //
 //@ func mergeList(dst, src) (res, err)
+//@   consumes dst, src
 //@   ensures (= (isErr err) (mergeErr dst src))                                    [C01]
 //@   ensures (=> (not (isErr err)) (= res (mergeF dst src)))                       [C01]
 //@   decreases (+ (rank dst) (rank src)) 2
 //
 //@ func mergeListList(dst, src) (res, err)
+//@   consumes dst, src
 //@   uses noMarkerNoExtra, noStrNoRemove
 //@   ensures (= (isErr err) (llErr (ls dst) (ls src)))                             [C01] [C07]
 //@   ensures (=> (not (isErr err)) (= res (VList (llF (ls dst) (ls src)))))        [C01] [C07]
@@ -129,6 +134,7 @@ package bkl
 //@     invariant (= (foldErr (ls dst) rest) (foldErr (ls dst@loop) (ls src)))
 //
 //@ func mergeListDelete(obj, del) (res, err)
+//@   consumes obj
 //@   uses appNil, snocApp
 //@   ensures (= (isErr err) (not (anyMatchL (ls obj) del)))                        [C01]
 //@   ensures (=> (not (isErr err)) (= res (VList (filterNot (ls obj) del))))       [C01]
@@ -139,6 +145,7 @@ package bkl
 //@     invariant (= (or deleted (anyMatchL rest del)) (anyMatchL (ls l) del))
 //
 //@ func mergeListMatch(obj, m, v) (res, err)
+//@   consumes obj, v
 //@   uses appNil, snocApp
 //@   requires ((_ is VMap) v)
 //@   ensures (= (isErr err)
@@ -211,7 +218,7 @@ package bkl
 //@     invariant (= (outBadK (mc obj) rest true) (outBadK (mc obj) (sortedKeys (mc obj)) true))
 //
 //@ func findOutputsList(obj) (res, outs, err)
-//@   uses appNil, snocApp, appAssoc
+//@   uses appNil, snocApp, appAssoc, dropMarkersRank
 //@   ensures (= (isErr err) (outBad obj true))
 //@   ensures (=> (not (isErr err)) (= res (stripF obj)))                           [C11]
 //@   ensures (=> (not (isErr err)) (= outs (VList (selF obj))))                    [C11]
@@ -259,7 +266,7 @@ package bkl
 //@   decreases (rank obj) 1
 //
 //@ func finalizeList(obj) (res)
-//@   uses lsetLen, lrepeatLen, ltakeSet, ltakeAll, finLsnoc
+//@   uses lsetLen, lrepeatLen, ltakeSet, ltakeAll, finLsnoc, appLen
 //@   ensures (= res (finF obj))                                                    [C06]
 //@   decreases (rank obj) 0
 //@   loop 1
@@ -281,6 +288,8 @@ package bkl
 // ------------------------------------------------------------------------------------------------- parser.go (output side)
 
 //@ func Parser.outputDocument(p, doc) (res, err)
+//@   property C19
+//@   modifies nothing
 //@   uses appNil, snocApp, appAssoc
 //@   ensures (=> (not (isErr err))
 //@              (exists ((h (Array Int Val)) (ds RLst))
@@ -296,3 +305,202 @@ package bkl
 //@   at call finalizeOutput#1
 //@     assert (noMarker v2)                                                        [C07]
 //@     assert (= v2 (hideF v))                                                     [C11]
+
+// ------------------------------------------------------------------------------------------------- repeat.go, evalcontext.go, document.go (shape contracts)
+
+//@ func repeatDoc(doc, ec) (docs, ecs, err)
+//@   ensures (=> (not (isErr err)) (= (rllen docs) (rllen ecs)))
+//
+//@ func repeatDocMap(doc, ec, data) (docs, ecs, err)
+//@   ensures (=> (not (isErr err)) (= (rllen docs) (rllen ecs)))
+//
+//@ func repeatDocList(doc, ec, data) (docs, ecs, err)
+//@   ensures (=> (not (isErr err)) (= (rllen docs) (rllen ecs)))
+//
+//@ func repeatDocGen(doc, ec, v) (docs, ecs, err)
+//@   ensures (=> (not (isErr err)) (= (rllen docs) (rllen ecs)))
+//
+//@ func repeatDocGenFromInt(doc, ec, name, count) (docs, ecs, err)
+//@   uses rappLen
+//@   ensures (=> (not (isErr err)) (= (rllen docs) (rllen ecs)))
+//@   ensures (=> (not (isErr err)) (= (rllen docs) (ite (< count 0) 0 count)))            [C12]
+//@   loop 1
+//@     invariant (= (rllen docs) (rllen ecs))
+//@     invariant (and (<= 0 i) (= (rllen docs) i) (or (<= i count) (= i 0)))
+//
+//@ func repeatDocGenFromMap(doc, ec, rs) (docs, ecs, err)
+//@   uses rappLen
+//@   ensures (=> (not (isErr err)) (= (rllen docs) (rllen ecs)))
+//@   loop 2
+//@     invariant (= (rllen docs) (rllen ecs))
+//@   loop 3
+//@     invariant (= (rllen tmpDocs) (rllen tmpECs))
+
+// ------------------------------------------------------------------------------------------------- yaml.go (shape contracts)
+
+//@ func yamlMerge(dst, src, node) (err)
+//@   mutates dst
+//@   requires ((_ is VMap) dst)
+//@   ensures ((_ is VMap) dst@post)
+//@   loop 1
+//@     invariant ((_ is VMap) dst)
+//@   loop 2
+//@     invariant ((_ is VMap) dst)
+//@   loop 3
+//@     invariant ((_ is VMap) dst)
+
+//@ func Document.Process(d, mergeFromDocs) (docs, err)
+//@   uses rappLen
+
+// ------------------------------------------------------------------------------------------------- process1.go (termination: depth guard)
+// measure: (1002 - depth, rank of the function inside one depth level); process1 increments depth and refuses depth > 1000
+
+//@ func process1(obj, mergeFrom, mergeFromDocs, depth) (res, err)
+//@   inplace obj
+//@   property C10
+//@   decreases (- 1002 depth) 0
+//@ func process1Map(obj, mergeFrom, mergeFromDocs, depth) (res, err)
+//@   inplace obj
+//@   property C10
+//@   requires ((_ is VMap) obj)
+//@   decreases (- 1002 depth) 5
+//@ func process1MapMerge(obj, mergeFrom, mergeFromDocs, v, depth) (res, err)
+//@   inplace obj
+//@   property C10
+//@   requires ((_ is VMap) obj)
+//@   decreases (- 1002 depth) 1
+//@ func process1MapReplace(obj, mergeFrom, mergeFromDocs, v, depth) (res, err)
+//@   decreases (- 1002 depth) 1
+//@ func process1List(obj, mergeFrom, mergeFromDocs, depth) (res, err)
+//@   inplace obj
+//@   property C10
+//@   decreases (- 1002 depth) 5
+//@ func process1ListReplace(obj, mergeFrom, mergeFromDocs, m, depth) (res, err)
+//@   decreases (- 1002 depth) 1
+//@ func process1String(obj, mergeFrom, mergeFromDocs, depth) (res, err)
+//@   decreases (- 1002 depth) 5
+//@ func process1StringMerge(obj, mergeFrom, mergeFromDocs, depth) (res, err)
+//@   decreases (- 1002 depth) 1
+//@ func process1StringReplace(obj, mergeFrom, mergeFromDocs, depth) (res, err)
+//@   decreases (- 1002 depth) 1
+
+// ------------------------------------------------------------------------------------------------- process2.go (termination: depth guard)
+
+//@ func process2(obj, mergeFrom, mergeFromDocs, ec, depth) (res, err)
+//@   decreases (- 1002 depth) 0
+//@ func process2Map(obj, mergeFrom, mergeFromDocs, ec, depth) (res, err)
+//@   decreases (- 1002 depth) 9
+//@ func process2MapValue(obj, mergeFrom, mergeFromDocs, ec, v, depth) (res, err)
+//@   decreases (- 1002 depth) 1
+//@ func process2Encode(obj, mergeFrom, mergeFromDocs, ec, v, depth) (res, err)
+//@   decreases (- 1002 depth) 1
+//@ func process2Decode(obj, mergeFrom, mergeFromDocs, ec, v, depth) (res, err)
+//@   decreases (- 1002 depth) 5
+//@ func process2DecodeString(obj, mergeFrom, mergeFromDocs, ec, v, depth) (res, err)
+//@   decreases (- 1002 depth) 4
+//@ func process2DecodeStringMap(obj, mergeFrom, mergeFromDocs, ec, v, depth) (res, err)
+//@   decreases (- 1002 depth) 3
+//@ func process2List(obj, mergeFrom, mergeFromDocs, ec, depth) (res, err)
+//@   decreases (- 1002 depth) 9
+//@ func process2RepeatObjMap(v, mergeFrom, mergeFromDocs, ec, k, r, depth) (res, err)
+//@   decreases (- 1002 depth) 2
+//@ func process2RepeatObjList(v, mergeFrom, mergeFromDocs, ec, r, depth) (res, err)
+//@   decreases (- 1002 depth) 2
+
+// ------------------------------------------------------------------------------------------------- get.go (termination)
+
+//@ func getPath(obj, parts) (res, err)
+//@   decreases (sllen parts)
+
+//@ func getCross(docs, conf) (res, err)
+//@   borrowed
+//@   decreases (rank conf) 0
+
+// ------------------------------------------------------------------------------------------------- ownership / frame (C02, C10, C19)
+// modes: consumes (callee may mutate/embed; caller gives it up), inplace (evaluated in place: process1's documented
+// behaviour, allowed on referenced data but a modification of whatever holds it), mutates (in/out container),
+// borrowed (results alias stored documents), fresh (results share nothing), modifies (struct fields written).
+
+//@ func get(doc, docs, m) (res, err)
+//@   borrowed
+//@   decreases (rank m) 1
+//@ func getPathFromString(obj, docs, path) (res, err)
+//@   borrowed
+//@ func getPathFromList(obj, docs, path) (res, err)
+//@   borrowed
+//@ func getCrossDoc(docs, pat) (res, err)
+//@   borrowed
+//@ func getWithVar(doc, docs, ec, m) (res, err)
+//@   borrowed
+
+//@ func process1ListMerge(obj, mergeFrom, mergeFromDocs, m, depth) (res, err)
+//@   property C10
+//@   consumes obj
+
+//@ func mergeDocs(doc, patch) (err)
+//@   property C02
+//@   modifies Document.Data[doc], Document.Parents[patch]
+
+//@ func Parser.MergeDocument(p, patch) (err)
+//@   property C02
+//@   modifies Parser.docs, Document.Data, Document.Parents
+//@ func Parser.mergePatchMatch(p, patch) (matched, err)
+//@   property C02
+//@   modifies Parser.docs, Document.Data, Document.Parents
+//@ func Parser.mergeFile(p, f) (err)
+//@   property C02
+//@   modifies Parser.docs, Document.Data, Document.Parents
+//@ func Parser.MergeFile(p, path) (err)
+//@   property C02
+//@   modifies Parser.docs, Document.Data, Document.Parents
+//@ func Parser.MergeFileLayers(p, path) (err)
+//@   property C02
+//@   modifies Parser.docs, Document.Data, Document.Parents
+
+//@ func Parser.Output(p, format) (out, err)
+//@   property C19
+//@   modifies nothing
+//@ func Parser.OutputDocuments(p) (res, err)
+//@   property C19
+//@   modifies nothing
+//@ func Parser.OutputToWriter(p, fh, format) (err)
+//@   property C19
+//@   modifies nothing
+//@ func Parser.OutputToFile(p, path, format) (err)
+//@   property C19
+//@   modifies nothing
+//@ func Parser.Documents(p) (res)
+//@   property C19
+//@   modifies nothing
+
+// ------------------------------------------------------------------------------------------------- termination: interpolation, $parent chains
+
+//@ func process2String(obj, mergeFrom, mergeFromDocs, ec, depth) (res, err)
+//@   decreases (- 1002 depth) 1
+//@ func process2StringInterp(obj, mergeFrom, mergeFromDocs, ec, depth) (res, err)
+//@   decreases (- 1002 depth) 0
+
+//@ func Parser.loadFile(p, path, child) (res, err)
+//@   ensures (=> (not (isErr err)) (and (>= res allocTop) (not (= res 0))))
+//@   ensures (=> (not (isErr err)) (= (file.depth res) (ite (= child 0) 0 (+ (old (file.depth child)) 1))))
+//@   ensures (=> (not (isErr err)) (<= (file.depth res) 1000))
+//@   ensures (forall ((r Int)) (=> (< r allocTop) (= (file.depth r) (old (file.depth r)))))
+//@   loop 1
+//@     invariant (= (file.depth f) (ite (= child 0) 0 (+ (file.depth child) 1)))
+//@     invariant (forall ((r Int)) (=> (< r (old allocTop)) (= (file.depth r) (old (file.depth r)))))
+//
+//@ func Parser.loadFileAndParents(p, path, child) (res, err)
+//@   requires (=> (not (= child 0)) (>= (file.depth child) 0))
+//@   ensures (forall ((r Int)) (=> (< r allocTop) (= (file.depth r) (old (file.depth r)))))
+//@   decreases (- 1001 (ite (= child 0) (- 1) (file.depth child)))
+//@   loop 1
+//@     invariant (forall ((r Int)) (=> (< r (old allocTop)) (= (file.depth r) (old (file.depth r)))))
+//@     invariant (and (<= (file.depth f) 1000) (< f allocTop) (not (= f 0)))
+//@     invariant (= (file.depth f) (ite (= child 0) 0 (+ (old (file.depth child)) 1)))
+
+// termination of the $encode dispatch: "flags" expands to two transforms that are not "flags"
+//@ func process2EncodeAny(obj, mergeFrom, mergeFromDocs, v, depth) (res, err)
+//@   uses flagsApp
+//@   decreases (flagsIn v) (rank v) 1
+//@ func process2EncodeString(obj, mergeFrom, mergeFromDocs, v, depth) (res, err)
+//@   decreases (flagsIn (VStr v)) 0 0
